@@ -54,7 +54,7 @@ func c12AES(c *vf.Ctx) {
 	if !c.Active(sub) {
 		return
 	}
-	n := c.N(20000, 300000)
+	n := c.N(20000, 1000000)
 	for i := 0; i < n; i++ {
 		if !c.Mine(sub, i) {
 			continue
@@ -116,7 +116,7 @@ func c12Tamper(c *vf.Ctx) {
 	if !c.Active(sub) {
 		return
 	}
-	n := c.N(300, 12000)
+	n := c.N(300, 40000)
 	for i := 0; i < n; i++ {
 		if !c.Mine(sub, i) {
 			continue
@@ -473,7 +473,7 @@ func c12Find(c *vf.Ctx) {
 	if !c.Active(sub) {
 		return
 	}
-	n := c.N(150, 6000)
+	n := c.N(150, 20000)
 	// one server per shard serves the provider records of the case being run
 	var curInfos atomic.Pointer[[]*model.ProviderInfo]
 	empty := []*model.ProviderInfo{}
